@@ -12,7 +12,7 @@ ID = "C18"
 LEAN_MODULES = ["CatiiProps.C18"]
 USES_MODEL = True
 RULE = ("array dimensions as C03 (1..3 dims, extents <=3, N<=14) plus a wide stream (1-2 dims whose extent / product of extents "
-        "straddles 2^8, thorough: 2^16, N<=400); facts (N,) / (N,K<=3) with any missing pattern in both "
+        "straddles 2^8, thorough: 2^16, N<=400) and ill-conditioned facts (offset 1.7e9 with spread < 10; constant 0.1 cells); facts (N,) / (N,K<=3) with any missing pattern in both "
         "argument forms, weights none / positive array; both policies; per cell the statistic is recomputed from the rows of "
         "the cell with NumPy: stddev (ddof=1; weighted: reliability-weighted variance x n/(n-1)), quantile for p in {0, 0.1, "
         "0.25, 0.5, 0.9, 1} (unweighted, linear interpolation), weighted-quantile laws (missing rule, invariance under "
@@ -290,6 +290,16 @@ def run(ctx):
             ctx.hit("wide_extents")
         else:
             case = A.gen_case(ctx.rng, multi_axis=False, k=ctx.rng.choice([1, 1, 2, 3]), N=ctx.rng.choice([1, 2, 4, 7, 10, 14]))
+        if it % 7 == 3:      # numerically adversarial facts: a large offset with a small spread, or constant non-dyadic cells
+            shp = case["fact_vals"].shape
+            n = int(np.prod(shp))
+            if ctx.rng.random() < 0.5:
+                case["fact_vals"] = (1.7e9 + np.array([ctx.rng.randrange(0, 10) for _ in range(n)], dtype=float)).reshape(shp)
+            else:
+                case["fact_vals"] = np.array([ctx.rng.choice([0.1, 0.1, 0.1, 0.3]) for _ in range(n)], dtype=float).reshape(shp)
+            if case["fact_form"] == "pair_int":
+                case["fact_form"] = "pair"
+            ctx.hit("ill_conditioned_facts")
         w = case["weights"]
         if w is not None:
             if w[0] == "scalar":
